@@ -151,8 +151,8 @@ def _extra(tier, seed, deadline):
                     {
                         'universe': u.to_json(), 'cfg': cfg, 'walk_cfg': dict(cfg, timers=True),
                         'depth': (3 if tier == 'quick' else 6) if targets else (2 if tier == 'quick' else 5),
-                        'cap': 10**9 if tier == 'quick' else 20000,
-                        'walks': 2 if tier == 'quick' else 20, 'walk_len': 6 if tier == 'quick' else 12,
+                        'cap': 10**9 if tier == 'quick' else 3000,
+                        'walks': 2 if tier == 'quick' else 12, 'walk_len': 6 if tier == 'quick' else 12,
                         'seed': seed, 'deadline': deadline, 'drain': OUTCOMES,
                     }
                 )  # fmt: skip
@@ -164,7 +164,7 @@ def run(tier, seed):
     deadline = t0 + (14 if tier == 'quick' else 230)
     jobs = X.tier_jobs(
         tier, seed, deadline, CFG, WALK_CFG, drain=OUTCOMES, depth_delta=-1 if tier == 'quick' else 0,
-        walks_quick=6, walks_thorough=16,
+        walks_quick=6, walks_thorough=10,
     )  # fmt: skip
     jobs += _extra(tier, seed, deadline)
     return X.run_tier(PROPERTY, tier, seed, jobs, _job, Mon, X.RULE, CLAUSES, t0)
